@@ -2,9 +2,14 @@
     Proved: base winners + reserved tickets is invariant under every allocation, blacklisting and
     un-blacklisting of both families; an un-blacklisting that would need more than the remaining
     base winners is rejected by a user error (never by an arithmetic panic, hence never by a wrap
-    in deployment arithmetic); the deposit is sized by the conserved total.  The leftover loop's
-    final count min(K, n) is checked by the correspondence and the oracles only (DESIGN.md). *)
-From LP Require Import Proofs.Tactics Proofs.Gates Proofs.Frames Proofs.Settle Proofs.Reserve Proofs.GenTable Proofs.Examples.
+    in deployment arithmetic); the deposit is sized by the conserved total; the distribution step
+    hands out the whole pool of reserved tickets (used guarantees + leftover re-draws) unless every
+    ticket already wins, each hand-out marking one existing non-winning ticket ([C12_pool]; the
+    endpoint-level count min(base + reserved, n) is [C03_final]).  Not proved: that the recorded total
+    of reserved tickets equals the sum of the listed holders' reservations (an invariant of the
+    allocation / blacklist bookkeeping; compared on every run by the correspondence check). *)
+From LP Require Import Proofs.Tactics Proofs.Loop Proofs.Shuffle Proofs.Gates Proofs.Frames Proofs.Settle Proofs.Reserve Proofs.GenTable
+  Proofs.GuaranteedLoop Proofs.Leftover Proofs.Examples.
 Open Scope N_scope.
 
 Theorem C12_add_v1 : forall e w l w',
@@ -49,6 +54,22 @@ Theorem C12_release_profiles :
    Gen.Generated.gen_overflow_checks_ngt; Gen.Generated.gen_overflow_checks_gt2] = repeat (Some false) 8.
 Proof. exact overflow_checks_all. Qed.
 
+(** both phases of the distribution, completed: marked = reported; the pool (already handed out +
+    leftover + reservations of the listed holders) is handed out completely, or every ticket wins *)
+Theorem C12_pool : forall (H : list N -> list N) v2 b w o w1 o1 bb,
+  let s0 := st w in
+  let last := last_ticket_id s0 in
+  let nrw := nr_winning s0 in
+  NoDup (gt_users s0) -> sized v2 s0 -> within s0 last ->
+  (exists dead, DInv last s0 (nrw + g_offset o) dead) ->
+  count_winning s0 (range_ids 1 last) = nrw + g_additional o ->
+  gt_distribution H v2 b w o = Ok (w1, o1, true, bb) ->
+  count_winning (st w1) (range_ids 1 last) = nrw + g_additional o1 /\
+  g_leftover o1 = 0 /\
+  (g_additional o1 = pool0 v2 s0 o \/ (g_additional o1 <= pool0 v2 s0 o /\ last <= nrw + g_additional o1)) /\
+  nr_winning (st w1) = nrw /\ last_ticket_id (st w1) = last.
+Proof. exact gt_distribution_counts. Qed.
+
 Example C12_nonvacuous :
   match deploy Gt1 (mkenv 1 0 0 []) 1 100 0 1000 2 10 20 30 x0 with
   | Ok s0 =>
@@ -73,4 +94,5 @@ Print Assumptions C12_unblacklist_v1_no_panic.
 Print Assumptions C12_unblacklist_v2_no_panic.
 Print Assumptions C12_deposit_size.
 Print Assumptions C12_release_profiles.
+Print Assumptions C12_pool.
 Print Assumptions C12_nonvacuous.
